@@ -141,6 +141,11 @@ class YosysBehavioralRTLIRToVVisitorL1( BehavioralRTLIRToVVisitorL1 ):
       value_str = s.visit( node.value )
       cur_nbits = node.value.Type.get_dtype().get_length()
       if cur_nbits == nbits:
+        # The cast disappears, the grouping it provided must not:
+        # ~Bits8( a & b ) is ~( a & b ), not ~a & b.
+        if isinstance( node.value,
+            ( bir.IfExp, bir.UnaryOp, bir.BinOp, bir.Compare ) ):
+          return f"( {value_str} )"
         return value_str
       elif cur_nbits > nbits:
         msb = nbits-1
